@@ -353,7 +353,7 @@ def diff(a, b):
 
 
 def prepare(tier, seed):
-    return 4000 if tier == "quick" else 200000
+    return 8000 if tier == "quick" else 200000
 
 
 def params_for(i, tier, seed):
